@@ -101,16 +101,25 @@ def join(a, b):
         j = join(a.strip_opt(), b.strip_opt())
         return Opt(j)
     if a.kind == b.kind and a.kind in ('seq', 'set', 'tuple'):
-        return Ty(a.kind, (join(a.args[0], b.args[0]),))
+        return Ty(a.kind, (cjoin(a.args[0], b.args[0]),))
     if {a.kind, b.kind} == {'seq', 'tuple'}:
-        return Seq(join(a.args[0], b.args[0]))
+        return Seq(cjoin(a.args[0], b.args[0]))
     if a.kind == b.kind == 'map':
-        return Map(join(a.args[0], b.args[0]), join(a.args[1], b.args[1]))
+        return Map(cjoin(a.args[0], b.args[0]), cjoin(a.args[1], b.args[1]))
     if a.kind == b.kind == 'obj':
         return Ty('obj', (), '|'.join(sorted(set(a.name.split('|')) | set(b.name.split('|')))))
     if {a.kind, b.kind} == {'int', 'bool'}:
         return INT
     return ANY
+
+
+def cjoin(a, b):
+    """join of container element types: an element type Any only comes from an empty literal"""
+    if a.is_any:
+        return b
+    if b.is_any:
+        return a
+    return join(a, b)
 
 
 class TyEnv:
